@@ -471,3 +471,137 @@ pub fn expected_convention(f: &Function) -> Result<String, String> {
         None => Ok(if has_receiver(f) { "thiscall".into() } else { "system".into() }),
     }
 }
+
+// ---------------------------------------------------------------------------
+// method sets (C07 / C17 / C16)
+
+#[derive(Clone, Debug, PartialEq, Eq)]
+pub enum MKind {
+    /// declared in the type's own impl block with #[address]
+    Own,
+    /// re-exposed from base field `field`; calls `target` on it
+    Forward { field: String, target: String },
+}
+
+#[derive(Clone, Debug)]
+pub struct Method<'a> {
+    pub name: String,
+    pub func: &'a Function,
+    pub kind: MKind,
+    /// path of the type whose impl/vftable block declares `func`
+    pub declared_in: String,
+    /// true when `func` is a virtual function (forwarded from a non-first base)
+    pub is_virtual_origin: bool,
+}
+
+impl<'a> Env<'a> {
+    pub fn own_impl_functions(&self, path: &str) -> Vec<&'a Function> {
+        let module = parent_of(path);
+        let name = last_of(path);
+        let Some(m) = self.modules.get(module) else { return vec![] };
+        // the last impl block for a name wins (they are keyed by path)
+        let mut out: Vec<&'a Function> = vec![];
+        for b in &m.impls {
+            if b.name.as_str() == name {
+                out = b.functions.iter().collect();
+            }
+        }
+        out
+    }
+
+    /// Functions of the effective vftable of `path` (own block, else first base's), with
+    /// the path of the type that declares the block.
+    pub fn virtuals(&self, path: &str) -> Option<(String, &'a [Function], Option<isize>)> {
+        let owner = self.vftable_owner(path)?;
+        let (fs, size) = self.vftable_block(&owner)?;
+        Some((owner, fs, size))
+    }
+
+    /// Associated (non-virtual-wrapper) methods the emitted impl of `path` must offer,
+    /// in emission order: re-exposed base members first, then own impl functions.
+    pub fn associated(&self, path: &str) -> Vec<Method<'a>> {
+        let mut depth = 0;
+        self.associated_in(path, &mut depth)
+    }
+
+    fn associated_in(&self, path: &str, depth: &mut usize) -> Vec<Method<'a>> {
+        *depth += 1;
+        if *depth > 64 {
+            return vec![];
+        }
+        let mut used: BTreeSet<String> = BTreeSet::new();
+        if let Some((_, fs, size)) = self.virtuals(path) {
+            if let Ok(sl) = slots(fs, size) {
+                for (i, s) in sl.iter().enumerate() {
+                    match s {
+                        Slot::Func(f) => {
+                            used.insert(f.name.0.clone());
+                        }
+                        Slot::Placeholder => {
+                            used.insert(format!("_vfunc_{i}"));
+                        }
+                    }
+                }
+            }
+        }
+        let mut out: Vec<Method<'a>> = vec![];
+        for (i, (field, base)) in self.bases(path).iter().enumerate() {
+            let Some(base) = base else { continue };
+            let mut expose = |name_on_base: &str, func: &'a Function, declared_in: &str, virt: bool, out: &mut Vec<Method<'a>>| {
+                if func.visibility != Visibility::Public {
+                    return;
+                }
+                let name = if used.contains(name_on_base) {
+                    format!("{field}_{name_on_base}")
+                } else {
+                    name_on_base.to_string()
+                };
+                used.insert(name.clone());
+                out.push(Method {
+                    name,
+                    func,
+                    kind: MKind::Forward {
+                        field: field.clone(),
+                        target: name_on_base.to_string(),
+                    },
+                    declared_in: declared_in.to_string(),
+                    is_virtual_origin: virt,
+                });
+            };
+            for m in self.associated_in(base, depth) {
+                expose(&m.name, m.func, &m.declared_in, m.is_virtual_origin, &mut out);
+            }
+            if i > 0 {
+                if let Some((owner, fs, _)) = self.virtuals(base) {
+                    for f in fs {
+                        expose(f.name.as_str(), f, &owner, true, &mut out);
+                    }
+                }
+            }
+        }
+        for f in self.own_impl_functions(path) {
+            out.push(Method {
+                name: f.name.0.clone(),
+                func: f,
+                kind: MKind::Own,
+                declared_in: path.to_string(),
+                is_virtual_origin: false,
+            });
+        }
+        out
+    }
+}
+
+pub fn doc_lines(attrs: &pyxis::grammar::Attributes) -> Vec<String> {
+    let mut out = vec![];
+    for a in attrs {
+        if let pyxis::grammar::Attribute::Assign(k, pyxis::grammar::Expr::StringLiteral(s)) = a {
+            if k.as_str() == "doc" {
+                for l in s.split('\n') {
+                    out.push(l.to_string());
+                }
+            }
+        }
+    }
+    out
+}
